@@ -1,6 +1,7 @@
 package main
 
 import (
+	"go/token"
 	"fmt"
 	"regexp"
 	"strings"
@@ -152,6 +153,7 @@ func runC29(c *Ctx) {
 		}
 		c.ArgIs(fn, "length part: exactly 8 bytes are read", c.CallsTo(fn, "util.EnsureRead"), 1, 2, "var:makeslice[:8]")
 	}
+	lengthedAllocRules(c)
 	if fn := c.Need("util.ReadLengthed"); fn != nil {
 		er := c.CallsTo(fn, "util.EnsureRead")
 		c.MP(fn, "lengthed item: bytes read only after the length part was read", er, 1, GOk("util.ReadLength(r)"))
@@ -180,6 +182,7 @@ func runC29(c *Ctx) {
 		c.MP(fn, "list writer: success only after every item was written", c.SuccessReturns(fn), 1, GLoopDone(t.loop))
 		c.MP(fn, "list writer: items written only after the count part", c.CallsD(fn, t.item), 1, GOk("*.Write("+t.countArg+")"))
 	}
+	listLimitRules(c)
 	if fn := c.Need("util.ReadLengthedSlice"); fn != nil {
 		loop := "(ι < len(make([][]byte)))"
 		var data []ssa.Instruction
@@ -320,4 +323,72 @@ func ensureReadRules(c *Ctx) {
 			}
 		}
 	}
+}
+
+// lengthedAllocRules (shared by C29 and C30 under the caller's current rule): ReadLengthed allocates
+// the buffer of an item only for an announced length that passed the limit as an unsigned value.
+func lengthedAllocRules(c *Ctx) {
+	fn := c.Need("util.ReadLengthed")
+	if fn == nil {
+		return
+	}
+	var ms []ssa.Instruction
+	for _, in := range allInstrs(fn) {
+		if mk, ok := in.(*ssa.MakeSlice); ok && c.DependsOnD(mk.Len, "util.ReadLength(r)#1") {
+			ms = append(ms, in)
+		}
+	}
+	c.MP(fn, "lengthed item: buffer allocated only for an announced length within the limit (compared as unsigned)", ms, 1,
+		GCmpU("util.ReadLength(r)#1", "<=", "*"), GCmpU("util.ReadLength(r)#1", "<", "*"))
+}
+
+// listLimitRules: the stream reader and the buffer reader of a lengthed list refuse the same
+// counts — a list one of them accepts is not rejected by the other (sibling agreement on the
+// comparison operator and the constant).
+func listLimitRules(c *Ctx) {
+	type lim struct {
+		op  token.Token
+		k   string
+		pos token.Pos
+	}
+	find := func(key, count string) (*ssa.Function, []lim) {
+		fn := c.Need(key)
+		if fn == nil {
+			return nil, nil
+		}
+		var out []lim
+		for _, b := range fn.Blocks {
+			if len(b.Instrs) == 0 {
+				continue
+			}
+			ifi, ok := b.Instrs[len(b.Instrs)-1].(*ssa.If)
+			if !ok {
+				continue
+			}
+			bo, ok := ifi.Cond.(*ssa.BinOp)
+			if !ok {
+				continue
+			}
+			k, isK := bo.Y.(*ssa.Const)
+			if !isK || c.D(bo.X) != count || k.Value == nil {
+				continue
+			}
+			if k.Int64() <= 1 { // the emptiness tests
+				continue
+			}
+			out = append(out, lim{bo.Op, c.D(bo.Y), ifi.Pos()})
+		}
+		return fn, out
+	}
+	sfn, sl := find("util.ReadLengthedSlice", "util.ReadLength(r)#1")
+	bfn, bl := find("util.ReadLengthedBytesSlice", "util.ReadLengthBytes(b)#0")
+	if sfn == nil || bfn == nil {
+		return
+	}
+	if !c.Floor(sfn, "count limit of the stream reader", len(sl), 1) || !c.Floor(bfn, "count limit of the buffer reader", len(bl), 1) {
+		return
+	}
+	ok := len(sl) == 1 && len(bl) == 1 && sl[0].op == bl[0].op && sl[0].k == bl[0].k
+	c.Report(sfn, "stream and buffer list readers refuse the same counts", sfn.Pos(), ok,
+		fmt.Sprintf("stream: count %v %s; buffer: count %v %s", sl[0].op, sl[0].k, bl[0].op, bl[0].k))
 }
